@@ -564,6 +564,8 @@ func runC17(c *Check, w *World) {
 		}
 	}
 	ruleHistoryIndependence(c, w, tb, ef, "R17.H", api...)
+	// the REST use of the hex helper: five request fields in the helper's argument order, in both OCRA endpoints
+	checkRESTEndpoints(c, w, tb, ef, "R17.REST", "/ocra/generate", "/ocra/validate")
 	c.Floor("R17.1", 6)
 	c.Floor("R17.2", 4)
 	c.Floor("R17.3", 4)
